@@ -349,6 +349,12 @@ def rand_leaf(rng, n, nv, cplx=False):
     return dict(nvdim=nv, vals=[g.qs(v) for v in vals], mask=rand_mask(rng, ncell), cplx=cplx)
 
 
+def dyadic_ratio(n, n2):
+    """n / n2 is a dyadic rational: the resampled cell size stays exactly representable"""
+    q = n2 // math.gcd(n, n2)
+    return q & (q - 1) == 0
+
+
 def no_ties(n, n2):
     return all(((2 * j + 1) * n) % (2 * n2) != 0 for j in range(n2))
 
@@ -401,7 +407,7 @@ def rand_map(rng, x, allow_io=True, in_tree=True):
     if k == "resample":
         for _ in range(20):
             sh = [rng.randint(1, 5) for _ in n]
-            if not in_tree or all(no_ties(a, b) for a, b in zip(n, sh)):
+            if not in_tree or all(no_ties(a, b) and dyadic_ratio(a, b) for a, b in zip(n, sh)):
                 return "resample", dict(sh=sh)
         return "resample", dict(sh=list(n))
     if k == "vtk":
@@ -487,7 +493,7 @@ def gen_expr_case(rng, tier, force=None):
     steps = rng.randint(1, 4 if tier == "quick" else 7)
     last = None
     for s in range(steps):
-        cat = rng.choice(["un", "un", "bin", "bin", "map", "pos"]) if force is None or s else force
+        cat = rng.choice(["un", "un", "un", "bin", "bin", "bin", "map", "map", "map", "pos"]) if force is None or s else force
         try:
             with np.errstate(all="ignore"):
                 if cat == "pos":
